@@ -154,7 +154,7 @@ func init() {
 func init() {
 	register(&propSpec{
 		ID:         "C04",
-		Rules:      []func(*Ctx){ruleR04a, ruleR04b, ruleR04c, ruleR04d, func(c *Ctx) { ruleBlockUse(c, "R04d-use", "soyjs") }, ruleR04f, ruleR04g, ruleR03c, ruleR03g, ruleR02k, ruleR04j, ruleR04k, ruleR04l, ruleR04n, ruleR04o, func(c *Ctx) { ruleR07j(c, "R04i", []string{"soyjs"}, 5) }, ruleR11a, ruleR11d, ruleR11f, ruleR02h, func(c *Ctx) { ruleR07bFor(c, false, true) }, ruleR04m},
+		Rules:      []func(*Ctx){ruleR04a, ruleR04b, ruleR04c, ruleR04d, func(c *Ctx) { ruleBlockUse(c, "R04d-use", "soyjs") }, ruleR04f, ruleR04g, ruleR03c, ruleR03g, ruleR02k, ruleR04j, ruleR04k, ruleR04l, ruleR04n, ruleR04o, ruleR04p, func(c *Ctx) { ruleR07j(c, "R04i", []string{"soyjs"}, 5) }, ruleR11a, ruleR11d, ruleR11f, ruleR02h, func(c *Ctx) { ruleR07bFor(c, false, true) }, ruleR04m},
 		Explain:    "Sibling cross-check of the two backends: R04a node-kind case sets agree (named exceptions); R04b function tables (names, argument counts), loop functions and print-directive tables (names, CancelAutoescape) agree; R04d the generator's scope push/pop is paired and every command body gets its own frame; R04c every expression emitter (walk cases and function-table emitters) is linearised by evaluating its emit calls path by path, parsed as a JavaScript expression template in which child slots are atoms, and for each operand slot every type-compatible child emitter must bind at least as tightly as the slot requires (and must not start with '-' directly after a '-'); R04f each operator node emits the JavaScript operator the language maps it to, operands in order; R04g visitPrint (evaluated over mode x cancel flag) wraps the value in escapeHtml exactly when the Go renderer escapes; R11a message parts are handled by both backends; R07b binder kinds agree. R04d-use: command-body fields are only handed to the generator's walker; R11d/R11e/R02h: catalogue loading and translated-text handling agree between the backends. R04i: generator arms mention every node-holding field; R03c/R03g/R04j: the escape tables of the renderer and of the JavaScript runtime (soyjs/lib/soyutils.js, read on every run) agree; R04k: directives apply first to last in both backends with the implicit escapeHtml outermost; R04l: loop counters are recorded and looked up under the loop variable's name; R04m: scope methods that add a binding update the same fields; R02k: the {css} dash; R11f: placeholder nodes are looked up in the message being rendered. R04n: the generator binds a loop variable around the loop body only (list expression, range arguments and ifempty belong to the enclosing scope); R04o: generated null tests are loose (== null), never strict.",
 		NotDecided: "anything inside soyutils.js; number formatting; mixed-type equality; statement-level structure of the generated file.",
 		Assumes:    []string{"the frozen operator mapping Soy -> JavaScript in the checker"},
